@@ -272,6 +272,30 @@ AtMostOncePerUse == ~dup
 StackBound == Len(stack) <= 2 * Depth(rule) + 2
 \* C17: the inputs are never modified
 InputsImmutable == [][phase = "run" => (rule' = rule /\ data' = data)]_mvars
+\* ---- step-wise (action) properties: they constrain EVERY transition of a behaviour, not only its terminal
+\* state, and are checked both on the bounded families (MC_Machine) and along the executions recorded from the
+\* code (TV_Events, where the machine is driven by the hook events)
+SeqPrefix(a, b) == Len(a) <= Len(b) /\ \A j \in DOMAIN a : SameValue(a[j], b[j])
+\* C17: a written log line is never retracted or rewritten, and a step writes at most one line
+LogAppendOnly == [][phase = "run" => (SeqPrefix(out, out') /\ Len(out') <= Len(out) + 1)]_mvars
+\* C01/C05: an error is never caught: once a frame has failed the stack only unwinds, nothing more is
+\* evaluated and nothing more is written, until the call has finished
+Failed == ~IsNone(ret) /\ ~ret.ok
+ErrorsOnlyUnwind ==
+  [][(phase = "run" /\ Failed) =>
+       /\ ~IsNone(ret') /\ ~ret'.ok
+       /\ Len(stack') <= Len(stack) /\ out' = out /\ evals' = evals]_mvars
+\* the control stack moves by at most one frame per step and a step never touches the kind of a frame below the top
+StackDiscipline ==
+  [][phase = "run" =>
+       /\ Len(stack') - Len(stack) \in {-1, 0, 1}
+       /\ \A j \in 1..(Len(stack) - 1) : j <= Len(stack') => stack'[j].k = stack[j].k]_mvars
+\* C04: the record of started evaluations only grows during a call; a finished call is final
+HistoryGrows == [][phase = "run" => evals \subseteq evals']_mvars
+DoneIsFinal == [][(phase = "done" /\ phase' = "done") => UNCHANGED <<ret, out, stack>>]_mvars
+\* a sub-result is handed over exactly once: `ret` is consumed by the step that follows it (no step leaves a
+\* finished sub-result lying while pushing new work)
+RetConsumed == [][(phase = "run" /\ ~IsNone(ret) /\ ~IsNone(ret')) => Len(stack') < Len(stack) \/ phase' = "done"]_mvars
 \* a value returned is always a JSON value; log lines are JSON values
 ResultsWellFormed == (~IsNone(ret) /\ ret.ok => IsJson(ret.v)) /\ \A j \in DOMAIN out : IsJson(out[j])
 \* C01: every behaviour terminates (checked under weak fairness of Step, no state constraint)
